@@ -9,18 +9,17 @@ import (
 )
 
 type Term struct {
-	id   int
-	op   string // "const", "sym", "uf", or an SMT operator name
-	w    int
-	c    *big.Int // constant value (bool: 0/1)
-	name string   // sym / uf name
-	args []*Term
-	p0   int   // extract hi / extend amount
-	p1   int   // extract lo
+	id      int
+	op      string // "const", "sym", "uf", or an SMT operator name
+	w       int
+	c       *big.Int // constant value (bool: 0/1)
+	name    string   // sym / uf name
+	args    []*Term
+	p0      int // extract hi / extend amount
+	p1      int // extract lo
 	bodyStr string
-	ub   int64 // sound unsigned upper bound (-1 unknown); only meaningful for bit-vectors
+	ub      int64 // sound unsigned upper bound (-1 unknown); only meaningful for bit-vectors
 }
-
 
 type UFDecl struct {
 	name string
@@ -583,6 +582,7 @@ func (tb *TB) Ule(a, b *Term) *Term {
 	}
 	return tb.cmp("bvule", a, b, func(c int) bool { return c <= 0 }, false)
 }
+
 // UleRaw builds a <= b without any bound-based folding (used to assert the bounds themselves).
 func (tb *TB) UleRaw(a, b *Term) *Term {
 	if a.isConst() && b.isConst() {
